@@ -2319,6 +2319,7 @@ def generate(repo):
                 for f2, qual2, lean2, ptypes2, opts2 in groups[g]:
                     if not status.get(lean2, "").startswith("untranslatable"):
                         status[lean2] = "untranslatable: its mutual-recursion partner %s is: %s" % (lean, e)
+                    ctx.fns.pop(qual2, None)     # callers of the group become untranslatable too
                 group_text[g] = [None] * (len(groups[g]) + 1)
     if "StorageType" in enums:
         chunks.insert(len(enums), ACTION_TEXT)
